@@ -56,9 +56,12 @@ def extraction_model(ctx, tss):
 def metamorphic(ctx, rng):
     from vlib import gen
     method = rng.choice(D.METHODS)
-    ts = D.datable_ts(rng, historical=(method == "variational_gamma" and rng.random() < 0.2),
-                      big=rng.random() < 0.2)
+    unphased = method == "variational_gamma" and rng.random() < 0.35
+    ts = D.datable_ts(rng, historical=(method == "variational_gamma" and not unphased and rng.random() < 0.2),
+                      big=rng.random() < 0.2, ploidy=2 if unphased else 1)
     kw = D.method_options(rng, method, ts)
+    if unphased and ts.num_individuals > 0:
+        kw["singletons_phased"] = False   # singleton blocks: their spans are coordinate differences too
     unary = False
     if method != "variational_gamma" and rng.random() < 0.35:
         # unary nodes above the top coalescence of a tree (their prior comes from SpansBySamples.second_pass)
